@@ -252,6 +252,8 @@ def _eval_const(expr: str, env: dict):
                     parts.append(str(ev(value.value)))
                     continue
                 raise ValueError("unsupported f-string")
+            if sum(len(part) for part in parts) > 65536:
+                raise ValueError("constant too large")
             return "".join(parts)
         if (
             isinstance(n, ast.Call)
@@ -320,6 +322,9 @@ def _eval_const(expr: str, env: dict):
 
     def _apply_bin(opcls, a, b):
         if opcls is ast.Add and isinstance(a, str) and isinstance(b, str):
+            # ``s = s + s`` repeated doubles the folded text with every line
+            if len(a) + len(b) > 65536:
+                raise ValueError("constant too large")
             return a + b
         ops = {
             ast.Add: op.add, ast.Sub: op.sub, ast.Mult: op.mul, ast.Div: op.truediv,
